@@ -1,6 +1,7 @@
 package checks
 
 import (
+	orbitdb "berty.tech/go-orbit-db"
 	"context"
 	"fmt"
 	"testing"
@@ -38,13 +39,15 @@ func genC02(rt *rapid.T) CaseC02 {
 	}
 	m := rapid.IntRange(2, max).Draw(rt, "nacts")
 	for i := 0; i < m; i++ {
-		a := ActC02{Kind: rapid.SampledFrom([]string{"write", "write", "write", "cut", "heal", "deliver", "deliver", "deliver", "drop", "dup", "restart", "gate", "release", "release", "dropexchange", "dropexchange", "dropall", "deliverall"}).Draw(rt, "kind"),
+		a := ActC02{Kind: rapid.SampledFrom([]string{"write", "write", "write", "cut", "heal", "deliver", "deliver", "deliver", "drop", "dup", "restart", "gate", "release", "release", "dropexchange", "dropexchange", "dropall", "deliverall", "bounce"}).Draw(rt, "kind"),
 			I: rapid.IntRange(0, c.N-1).Draw(rt, "i")}
 		switch a.Kind {
 		case "cut", "heal":
 			a.J = rapid.IntRange(0, c.N-1).Draw(rt, "j")
 		case "deliver", "drop", "dup", "release", "dropexchange":
 			a.K = rapid.IntRange(0, 30).Draw(rt, "k")
+		case "bounce":
+			a.J = rapid.IntRange(0, c.N-1).Draw(rt, "j")
 		case "write":
 			a.K = rapid.IntRange(0, 3).Draw(rt, "key")
 		}
@@ -192,6 +195,43 @@ func execC02(c CaseC02) *Outcome {
 		case "release":
 			if w.Peers[i].ReleaseParked(a.K) {
 				o.Labels = append(o.Labels, "fetch-released-by-hand")
+			}
+		case "bounce":
+			// the database is closed and opened again inside the same running instance (a store restart, not a
+			// process restart); while it is closed a peer that has just seen this one on the topic sends it its
+			// heads: a head exchange naming a database that is not open there at that moment
+			if gated[i] {
+				w.Peers[i].SetGate(false)
+				gated[i] = false
+			}
+			if err := cl.Stores[i].Close(); err != nil {
+				return fail("action %d: closing the store of replica %d failed: %v", ai, i, err)
+			}
+			if j := a.J % c.N; j != i && w.Linked(i, j) {
+				heads, err := cloneHeads(world.Heads(cl.Stores[j]))
+				if err != nil {
+					return fail("harness: %v", err)
+				}
+				msg, err := headsMessage(cl.Addr, heads)
+				if err != nil {
+					return fail("harness: %v", err)
+				}
+				if w.InjectDirect(j, i, msg) {
+					o.Labels = append(o.Labels, "head-exchange-while-store-closed")
+				}
+				time.Sleep(5 * time.Millisecond) // (lets the instance take the payload while the store is closed)
+			}
+			s2, err := w.Peers[i].DB.Open(ctx, cl.Addr, cl.OpenOpts(&orbitdb.CreateDBOptions{}))
+			if err != nil {
+				return fail("action %d: reopening the database on replica %d failed: %v", ai, i, err)
+			}
+			cl.Stores[i] = s2
+			if err := s2.Load(ctx, -1); err != nil {
+				return fail("action %d: Load after reopening on replica %d failed: %v", ai, i, err)
+			}
+			restarted[i] = true
+			if len(acked) > 0 {
+				faulty = true
 			}
 		case "restart":
 			if gated[i] {
